@@ -25,7 +25,7 @@ func init() {
 			"two sub-maps holding a list, one sub-map holding a table}, plus 5 trees in which b is a bystander or competes; thorough family (35 trees): every sub-map over {absent,string,list,null}^2, depth-3 chains, b-side shapes; " +
 			"thorough adds every choice of 4 sources over a 12-tree core family. Chart trees: root / root>sub / root>sub>subsub for tuples of <=2 sources, 1 and 3 levels (2 and 3 with a parent section) for larger tuples; " +
 			"user sources repeat their tree under sub. and sub.subsub.; every value is tagged with its source and scope. A case is distinct by (sources, trees) and non-trivial when two sources speak about the same top-level key. " +
-			"--set grammar: every path (key in {a,b,'a.b','c,d','e=f'} followed by <=2 (thorough <=3) keys or indexes [0..2]) x 12 (22) value ASTs x 4 entry points x (6+4*(len-1)) base maps x 3 contexts (alone, before, after another pair); distinct by the full tuple. " +
+			"--set grammar: every path (key in {a,b,'a.b','c,d','e=f'} followed by <=2 (thorough <=3) keys or indexes [0..2]) x 25 (34) value ASTs (incl. true/false in lower, upper, title and mixed case, the one-letter spellings t/T/f/F, 0/1, alone and as brace-list elements) x 4 entry points x (6+4*(len-1)) base maps x 3 contexts (alone, before, after another pair); distinct by the full tuple. " +
 			"repeated flags (root chart): every sequence of length 3 over {file1,file2} (same path given again) x every pair of quick-family trees x defaults absent or any tree; " +
 			"--set / --set-json / --set-string with expressions A,B of the same flag in the orders (A,B), (A,B,A), (A,A,B) x every pair of trees; reference applies occurrences in the order given. " +
 			"one values file holding the two trees as YAML documents (orders (A,B), (A,B,A)). table primitives: CoalesceTables and MergeTables on every ordered pair of the 35+1 thorough-family trees. " +
@@ -50,7 +50,7 @@ func init() {
 			"mapmerge:nested-earlier-map-later-scalar", "mapmerge:nested-earlier-map-later-list", "mapmerge:nested-earlier-map-later-null", "mapmerge:nested-earlier-scalar-later-map",
 			"saw-multi-document-values-file", "tables:null-over-map", "tables:null-over-scalar", "tables:merge-keeps-null",
 			"saw-repeated-file-path-decides", "saw-repeated-flag-expression-decides", "saw-same-flag-twice-later-wins",
-			"set:escaped-key", "set:index-extends-list", "set:typed-int", "set:typed-null", "set:leading-zero-string", "set:error-on-other-kind", "set:siblings-kept",
+			"set:mixed-case-bool", "set:one-letter-stays-string", "set:escaped-key", "set:index-extends-list", "set:typed-int", "set:typed-null", "set:leading-zero-string", "set:error-on-other-kind", "set:siblings-kept",
 		},
 	})
 }
@@ -478,6 +478,10 @@ func setFloors(c *core.Ctx, sc setCase, outcome string) {
 	}
 	if sc.Parser == "set" {
 		switch sc.Val.Name {
+		case "true-mixed", "false-mixed":
+			c.Floor("set:mixed-case-bool")
+		case "letter-t", "letter-F":
+			c.Floor("set:one-letter-stays-string")
 		case "int":
 			c.Floor("set:typed-int")
 		case "null":
